@@ -336,3 +336,30 @@ fn nf_sk_total() {
     sk_rt_for!(ml_dsa_65, "ml_dsa_65", 4, 6usize, 5usize);
     sk_rt_for!(ml_dsa_87, "ml_dsa_87", 2, 8usize, 7usize);
 }
+
+// C02 / C01 / C03: infinity_norm is the maximum of |e mod+- q| - structured vectors: one-hot at several indices with values around 0,
+// +-(gamma1 - beta), +-gamma2, +-(q-1)/2, +-q and the ends of the reduction domain, and two-hot vectors (negative vs positive maximum)
+#[test]
+fn nf_infinity_norm() {
+    use crate::helpers::infinity_norm;
+    const QI: i64 = 8_380_417;
+    fn want(v: &[i32]) -> i64 {
+        v.iter().map(|&e| { let m = (e as i64).rem_euclid(QI); let c = if m > (QI - 1) / 2 { m - QI } else { m }; c.abs() }).max().unwrap()
+    }
+    let anchors: [i64; 12] = [0, 1, 78, 130_994, 131_072, 95_232, 261_888, 524_092, (QI - 1) / 2, QI, 2 * QI, 2_143_289_343];
+    let mut vals: Vec<i32> = Vec::new();
+    for a in anchors { for d in -2i64..=2 { for s in [1i64, -1] { let x = s * a + d; if x.abs() < 2_143_289_344 { vals.push(x as i32); } } } }
+    for &i in &[0usize, 1, 127, 255] {
+        for &e in &vals {
+            let mut w = [R([0i32; 256])];
+            w[0].0[i] = e;
+            assert!(infinity_norm(&w) as i64 == want(&w[0].0), "infinity_norm one-hot i={} e={}: got {}, the norm is {}", i, e, infinity_norm(&w), want(&w[0].0));
+        }
+    }
+    for &(a, b) in &[(-130_994i32, 130_993i32), (130_993, -130_994), (-5, 4), (4, -5), (-1, 0), (8_380_416, 1), (-4_190_208, 4_190_208)] {
+        let mut w = [R([0i32; 256]), R([0i32; 256])];
+        w[0].0[3] = a; w[1].0[200] = b;
+        let all: Vec<i32> = w[0].0.iter().chain(w[1].0.iter()).copied().collect();
+        assert!(infinity_norm(&w) as i64 == want(&all), "infinity_norm two-hot ({}, {}): got {}, the norm is {}", a, b, infinity_norm(&w), want(&all));
+    }
+}
